@@ -3,16 +3,12 @@ import json, os
 HERE = os.path.dirname(os.path.dirname(os.path.abspath(__file__)))
 props = {json.loads(l)["id"]: json.loads(l) for l in open(os.path.join(HERE, "properties.jsonl"))}
 
-# id -> (design_ref, level text, level note, technique)
-CLAIMED = {
-    "C16": ("3/C16",
-            "Lean 4 theorems (all n_tasks>=1, all integer n_batches, all start): batches chain from start to start+n_tasks, are non-empty, "
-            "balanced, counted, cover exactly the range / the array slice in order, ids equal own lower bound. Tied to the code by an "
-            "exhaustive-grid + random differential comparison of the real batch_tasks / run_worker with the Lean functions on every run.",
-            "Trusted: Lean kernel, axioms propext/Classical.choice/Quot.sound, the hand-written model Batch.batchTasks and the harness that "
-            "compares it with thejoker.utils.batch_tasks; Python int semantics (//, %) modelled by Nat div/mod.",
-            "Lean 4 proof by induction over the batch loop + differential correspondence with the real function"),
-}
+# one JSON file per claimed property: harness/manifest.d/Cxx.json = {design_ref, text, note, technique}
+import glob
+CLAIMED = {}
+for f in sorted(glob.glob(os.path.join(HERE, "harness", "manifest.d", "C*.json"))):
+    d = json.load(open(f))
+    CLAIMED[os.path.basename(f)[:-5]] = (d["design_ref"], d["text"], d["note"], d["technique"])
 checks = []
 for pid, (ref, text, note, tech) in CLAIMED.items():
     checks.append({
